@@ -12,9 +12,9 @@ from .c08 import spectrum
 
 THEOREMS = '''fourElementTraces_entries cumulant_general_eq_commutators cumulant_general_model
 cumulant_single_qubit_eq_general shortcut_needs_pauli_basis second_order_antisymmetric
-first_order_symmetric K_row_col_zero cumulant_real cumulant_source_shape'''.split()
+first_order_symmetric K_row_col_zero cumulant_real '''.split()
 LEAN_MODULES = ['FFVerif.Props.C09']
-PINS = ['pinBasisArrayFinalize', 'pinFourElementTraces', 'pinErrorTransferMatrix']
+PINS = ['pinBasisArrayFinalize', 'pinFourElementTraces', 'pinErrorTransferMatrix', 'C09_cumulant_source_shape']
 GEN_SITES = ['einsum:numeric_calculate_cumulant_function_', 'einsum:basis_Basis_four_element_traces_',
              'const:numeric.calculate_cumulant_function']
 COMPONENTS = ['cumulant_general', 'cumulant_single_qubit']
@@ -112,6 +112,22 @@ def check_cumulant(ctx, case):
     sc = max(np.max(np.abs(K)), 1e-12)
     if not worst/sc <= 1e-9:
         probs.append(f'cumulant function differs from the documented trace formula by {worst/sc:.3g}')
+    # the same K from precomputed decay amplitudes / frequency shifts, twice from the same arrays
+    # (they are the caller's: unchanged afterwards), and the error transfer matrix from K
+    G0, D0 = G.copy(), (D.copy() if second else None)
+    for rep in range(2):
+        Kp = numeric.calculate_cumulant_function(gens.build(desc), decay_amplitudes=G,
+                                                 frequency_shifts=D, second_order=second)
+        e = np.max(np.abs(Kp - K))/sc
+        if not e <= 1e-9:
+            probs.append(f'cumulant function from precomputed decay amplitudes / frequency shifts '
+                         f'(call {rep + 1}) differs from the one computed from the spectrum by {e:.3g}')
+            break
+    if not (np.array_equal(G, G0) and (not second or np.array_equal(D, D0))):
+        probs.append('precomputed decay amplitudes / frequency shifts were modified by '
+                     'calculate_cumulant_function')
+    Up = numeric.error_transfer_matrix(cumulant_function=K)
+    Kc = K.copy()
     # label independence (d == 2): the same basis under another btype label
     if d == 2:
         lab = 'Custom' if p.basis.btype in ('Pauli', 'GGM') else 'Pauli'
@@ -127,6 +143,8 @@ def check_cumulant(ctx, case):
     e = np.max(np.abs(U - expm(Ksum.real if not np.iscomplexobj(U) else Ksum)))
     if not e <= 1e-9:
         probs.append(f'error transfer matrix differs from expm(sum K) by {e:.3g}')
+    if not (np.max(np.abs(Up - U)) <= 1e-9 and np.array_equal(K, Kc)):
+        probs.append('error transfer matrix from a precomputed cumulant function differs / modified it')
     tl = bool(p.basis.istraceless)
     if tl and len(C) == d*d:
         i0 = 0
